@@ -189,18 +189,22 @@ def real_run(item):
         shutil.rmtree(d, ignore_errors=True)
 
 
+def dispatch(item):
+    kind, arg = item
+    return hash_seed_child(arg) if kind == "hash" else task(arg)
+
+
 def run(ctx):
     wp.warm_up()
     quick = ctx.tier == "quick"
     seeds = [ctx.sub(("opt", i)) for i in range(24 if quick else 400)]
     hs = [1, 4242] if quick else [1, 7, 4242, 99999]
-    # hash-seed children run in their own interpreters, in parallel with the schedule search
-    import concurrent.futures as cf
-
-    tp = cf.ThreadPoolExecutor(max_workers=len(hs))
-    chunks = [(h, seeds if quick else seeds[:120]) for h in hs]
-    hfuts = [tp.submit(hash_seed_child, c) for c in chunks]
-    res = runner.pmap(task, seeds, timeout=1500)
+    # hash-seed children run in their own interpreters; they are launched from the (single-threaded) pool workers, never
+    # from threads of this process: forking the pool while other threads run is a deadlock hazard
+    chunks = [("hash", (h, seeds if quick else seeds[:120])) for h in hs]
+    allres = runner.pmap(dispatch, chunks + [("task", s) for s in seeds], timeout=1500)
+    hres = allres[: len(chunks)]
+    res = allres[len(chunks):]
     refs = {}
     n_exec = 0
     sig = set()
@@ -216,8 +220,7 @@ def run(ctx):
             ctx.probe("log_p_one_equal_to_1e-9_but_not_bitwise", out["bit"])
         for key, detail in out["problems"]:
             ctx.violation(key, detail + " | option seed %d" % out["seed"], {"seed": out["seed"], "key": key, "kind": "schedule"})
-    for f in hfuts:
-        hr = f.result()
+    for hr in hres:
         for s, d in hr["out"].items():
             s = int(s)
             if s not in refs or d is None:
@@ -229,7 +232,6 @@ def run(ctx):
                 ctx.probe("log_p_one_equal_to_1e-9_but_not_bitwise", b)
             for key, detail in P[:1]:
                 ctx.violation(dict(key, perturbation="hashseed"), detail + " | option seed %d" % s, {"seed": s, "key": dict(key, perturbation="hashseed"), "kind": "hashseed", "hashseed": hr["hashseed"]})
-    tp.shutdown()
     if not quick:
         items = []
         for s in seeds[:6]:
